@@ -83,6 +83,11 @@ EXTRA = [
     # the middle table is defined twice with different columns: later statements see the LATEST definition
     ("create table s.t1 as select a from s.t0; create or replace table s.t1 as select b, c from s.u0; insert into s.t2 select * from s.t1", {"zz.other": ["q"]},
      [("s.u0.b", "s.t2.b"), ("s.u0.c", "s.t2.c"), ("s.t0.a", "s.t1.a")]),
+    # ONE unqualified column of a table created earlier feeds TWO output columns of a join (every such use is resolved late)
+    ("insert into s.t1 select k, v from s.t0; insert into s.t2 select k as a, k + 1 as b, v from s.t1 join s.u on t1.k = u.k2", None,
+     [("s.t0.k", "s.t2.a"), ("s.t0.k", "s.t2.b"), ("s.t0.v", "s.t2.v")]),
+    ("insert into s.t1 select k, v from s.t0; insert into s.t2 select k as a, k + 1 as b, v from s.t1 join s.u on t1.k = u.k2", {"zz.other": ["q"]},
+     [("s.t0.k", "s.t2.a"), ("s.t0.k", "s.t2.b"), ("s.t0.v", "s.t2.v")]),
     # diamond: both branches meet again
     ("insert into s.t1 select a, b from s.t0; insert into s.t2 select a as x from s.t1; insert into s.t3 select b as y from s.t1; insert into s.t4 select t2.x, t3.y from s.t2 join s.t3 on t2.x = t3.y", None,
      [("s.t0.a", "s.t4.x"), ("s.t0.b", "s.t4.y")]),
